@@ -174,9 +174,25 @@ func (kc *Cache[V]) ForEach(k []byte, fn func(e Entry[V]) bool) {
 	defer kc.mu.RUnlock()
 	d := Distance(kc.locus, k)
 	lz := LeadingZeros(d)
-	// everything in these buckets will have lz bits matching k.
-	for i := lz; i < len(kc.buckets); i++ {
-		if !kc.buckets[i].forEach(k, fn) {
+	// everything in this bucket will have more than lz bits matching k.
+	if lz < len(kc.buckets) {
+		if !kc.buckets[lz].forEach(k, fn) {
+			return
+		}
+	}
+	// everything in the deeper buckets has exactly lz bits matching k.
+	// Their order relative to k is not the bucket order, so they are sorted together.
+	var deeper []Entry[V]
+	for i := lz + 1; i < len(kc.buckets); i++ {
+		for _, e := range kc.buckets[i].entries {
+			deeper = append(deeper, e)
+		}
+	}
+	slices.SortFunc(deeper, func(a, b Entry[V]) bool {
+		return DistanceLt(k, a.Key, b.Key)
+	})
+	for _, e := range deeper {
+		if !fn(e) {
 			return
 		}
 	}
